@@ -2778,14 +2778,15 @@ pub(crate) mod convert {
             attr: &read::Attribute<R>,
             convert_address: &dyn Fn(u64) -> Option<Address>,
         ) -> ConvertResult<AttributeValue> {
-            if attr.form() == constants::DW_FORM_implicit_const {
+            // File indices must be converted even if they are implicit constants
+            // (GCC uses `DW_FORM_implicit_const` for `DW_AT_decl_file`).
+            if attr.form() == constants::DW_FORM_implicit_const
+                && !matches!(attr.value(), read::AttributeValue::FileIndex(_))
+            {
                 let implicit_const_value = match attr.raw_value() {
                     read::AttributeValue::Sdata(val) => val,
                     _ => return Err(ConvertError::InvalidAttributeValue),
                 };
-                // TODO: should we limit which names this is supported for?
-                // For example, if it occurred for DW_AT_decl_file then we
-                // wouldn't correct convert the file index.
                 return Ok(AttributeValue::ImplicitConst(implicit_const_value));
             }
             Ok(match attr.value() {
